@@ -8,6 +8,10 @@ TARGETS = ['MindsVerif.Props.C03', 'MindsVerif.Props.C03B']
 THEOREMS = ['MindsVerif.Props.C03.' + n for n in (
     'C03_sqlite', 'C03_mysql', 'C03_mindsdb', 'C03_generic', 'phi3a_sqlite', 'phi3a_mysql', 'phi3a_mindsdb',
     'phi3b_sqlite', 'phi3b_mysql', 'phi3b_mindsdb', 'ops_present',
+    # round 6: reduce/reduce conflicts among operator rules go to the longest rule (independent of rule order); the value the
+    # actions build, for every faithful constructor; the pin on the live constructors
+    'phi3c_sqlite', 'phi3c_mysql', 'phi3c_mindsdb', 'C03_value', 'C03_value_sqlite', 'C03_value_mysql', 'C03_value_mindsdb',
+    'C03_value_witness', 'ctor_pin',
     'roundtrip_sqlite', 'roundtrip_mysql', 'roundtrip_mindsdb')] + ['MindsVerif.Props.C03B.' + n for n in (
     # Level B: simulation of OPM by the real LR driver over the real tables (certificate checked by the kernel)
     'C03B_generic', 'C03B_canon_generic', 'C03B_sqlite', 'C03B_mysql', 'C03B_mindsdb',
@@ -21,15 +25,19 @@ ASSUME = [
     'OPM.parse models the grouping of an LALR parser whose decisions are SLY resolve; tied to the real tables by the kernel-checked '
     'conformance obligation phi3b (every expr state x every fragment operator) and to the real parser by the expression stream (6 contexts)',
     'Level B (Props/C03B.lean): the simulation between the OPM and the LR driver over the real tables is proved for atoms = ID tokens, '
-    'parentheses, binary and prefix operators, BETWEEN and the two-token NOT IN, from every statement / parenthesis context listed in '
+    'parentheses, binary and prefix operators, BETWEEN and the two-token spellings the live grammar has (NOT IN; IS NOT), from every statement / parenthesis context listed in '
     'Gen/ExprSim_<d>.lean; operands other than identifiers (constants, functions, CASE) stay covered by the correspondence stream only',
+    'Model/AstBuild.lean is a hand model of the operator rules\' actions (tied by stream opm, which reads the real value) and ASSUMES '
+    'the node constructors are faithful; pinned by Gen/CtorPin.lean (live constructors called on chains up to depth 6000, observed by '
+    'object identity) + the kernel-decided ctor_pin, and watched by the long-chain stream (130 … 1100 operators through parse_sql)',
 ]
 
 LEX = {'OR': 'OR', 'AND': 'AND', 'EQUALS': '=', 'NEQUALS': '<>', 'LESS': '<', 'LEQ': '<=', 'GREATER': '>', 'GEQ': '>=',
        'IN': 'IN', 'NOT_IN': 'NOT IN', 'NOT IN': 'NOT IN', 'LIKE': 'LIKE', 'NOT_LIKE': 'NOT LIKE', 'IS': 'IS', 'IS_NOT': 'IS NOT',
+       'IS NOT': 'IS NOT', 'NOT LIKE': 'NOT LIKE',
        'PLUS': '+', 'MINUS': '-', 'STAR': '*', 'DIVIDE': '/', 'MODULO': '%', 'NOT': 'NOT', 'BETWEEN': 'BETWEEN'}
 STRAT = {'OR': 0, 'AND': 1, 'EQUALS': 3, 'NEQUALS': 3, 'LESS': 3, 'LEQ': 3, 'GREATER': 3, 'GEQ': 3, 'IN': 3, 'NOT_IN': 3,
-         'NOT IN': 3, 'LIKE': 3, 'NOT_LIKE': 3, 'IS': 3, 'IS_NOT': 3, 'PLUS': 4, 'MINUS': 4, 'STAR': 5, 'DIVIDE': 5, 'MODULO': 5}
+         'NOT IN': 3, 'LIKE': 3, 'NOT_LIKE': 3, 'IS': 3, 'IS_NOT': 3, 'IS NOT': 3, 'NOT LIKE': 3, 'PLUS': 4, 'MINUS': 4, 'STAR': 5, 'DIVIDE': 5, 'MODULO': 5}
 CONTEXTS = {
     'select': ('SELECT %s FROM t', lambda a: a.targets[0]),
     'where': ('SELECT * FROM t WHERE %s', lambda a: a.where),
@@ -48,9 +56,21 @@ class Ops:
         self.pres = s['pres']
         self.btw = s['btw']
         self.and_ = s['and_']
+        # two-token spellings (`expr T1 T2 expr` rules of the live grammar) and, where the lexer also has a one-token spelling of
+        # the same operator, that operator's id: the AST cannot tell the spellings apart (same `op` string), so trees are compared
+        # after mapping a two-token id to the one-token id (`canon`)
+        self.split = {int(k): v for k, v in s.get('split', {}).items()}
+        self.canon = {int(k): v for k, v in s.get('single', {}).items()}
+        # trees are generated over one id per operator (C01's expression stream shares this class): the two-token twin of
+        # an operator that also has a one-token spelling is reached through the TEXT (comment between the words), not through
+        # a separate operator id; `all_bins` keeps every id of Gen/Prec_<d>.F
+        self.all_bins = list(self.bins)
+        self.bins = [o for o in self.bins if o not in self.canon]
         self.by_lex = {}
-        for o in self.bins:
-            self.by_lex[LEX[self.names[o]]] = o
+        for o in self.all_bins:
+            self.by_lex[LEX[self.names[o]]] = self.canon.get(o, o)
+        # multi-word spellings for which the grammar has a rule over the separate words
+        self.has_split = {LEX[self.names[o]] for o in self.split}
         self.pre_by_lex = {LEX[self.names[o]]: o for o in self.pres}
 
     def strat(self, t):
@@ -77,6 +97,28 @@ def show(t):
     if k == 'w':
         return '(w %s %s %s)' % (show(t[1]), show(t[2]), show(t[3]))
     return '(q %s)' % show(t[1])
+
+
+def canon_tree(ops, t):
+    """two-token operator ids -> the id of the one-token spelling of the same operator (what `from_ast` yields)"""
+    if not ops.canon:
+        return t
+    k = t[0]
+    if k in ('a', 'k'):
+        return t
+    if k == 'q':
+        return ('q', canon_tree(ops, t[1]))
+    if k == 'p':
+        return ('p', t[1], canon_tree(ops, t[2]))
+    if k == 'b':
+        return ('b', ops.canon.get(t[1], t[1]), canon_tree(ops, t[2]), canon_tree(ops, t[3]))
+    return ('w',) + tuple(canon_tree(ops, x) for x in t[1:])
+
+
+def canon_str(ops, shown):
+    for a, c in ops.canon.items():
+        shown = shown.replace('(b %d ' % a, '(b %d ' % c)
+    return shown
 
 
 def add_parens(ops, t):
@@ -209,7 +251,7 @@ def relabel(t, counter):
 
 # ---- evaluation (sqlite3 as reference engine) -----------------------------------------------
 EVAL_OPS = {'OR', 'AND', 'EQUALS', 'NEQUALS', 'LESS', 'LEQ', 'GREATER', 'GEQ', 'PLUS', 'MINUS', 'STAR', 'DIVIDE',
-            'MODULO', 'IS', 'IS_NOT', 'NOT'}
+            'MODULO', 'IS', 'IS_NOT', 'IS NOT', 'NOT'}
 
 
 def tri(v):
@@ -252,16 +294,15 @@ def evaluate(ops, t, env):
         return None if l is None or r is None else 0
     if nm == 'IS':
         return int(l == r)
-    if nm == 'IS_NOT':
+    if nm in ('IS_NOT', 'IS NOT'):
         return int(l != r)
     if l is None or r is None:
         return None
-    if nm == 'PLUS':
-        return l + r
-    if nm == 'MINUS':
-        return l - r
-    if nm == 'STAR':
-        return l * r
+    if nm in ('PLUS', 'MINUS', 'STAR'):
+        v = l + r if nm == 'PLUS' else (l - r if nm == 'MINUS' else l * r)
+        if abs(v) >= 2 ** 62:
+            raise OverflowError('beyond sqlite3 integers')     # sqlite3 would continue in floating point: not comparable
+        return v
     if nm in ('DIVIDE', 'MODULO'):
         if r == 0:
             return None
@@ -320,11 +361,189 @@ def parse_real(dialect, ops, text_expr, ctx):
         return None, '%s: %s' % (type(e).__name__, str(e)[:100])
 
 
+# ---- spellings of multi-word operators ---------------------------------------------------------
+# whatever separates the words of `IS NOT`, `NOT IN`, `NOT LIKE` it is one operator: blanks / line breaks are bridged by the
+# lexers' one-token regexes, a comment is not (the words arrive as two terminals and take other grammar rules, or none)
+WS_SEPS = ['  ', '\t', '\n', ' \n  ']
+COMMENT_SEPS = [' /* c */ ', '/**/', ' -- c\n ', ' /* NOT */ ', '\n/* a\n b */\n', ' --\n']
+MULTI_RE = re.compile(r'\b(IS|NOT) (NOT|IN|LIKE)\b')
+
+
+def respell(text, seps, k):
+    """re-spell every multi-word operator of `text` with separators taken from `seps` (rotating from k); returns the new text and
+    the operator spellings touched"""
+    touched = []
+
+    def rep(m):
+        touched.append(m.group(1) + ' ' + m.group(2))
+        return m.group(1) + seps[(k + len(touched)) % len(seps)] + m.group(2)
+    return MULTI_RE.sub(rep, text), touched
+
+
+def has_is_of_not(ops, t):
+    """the tree holds `x IS (NOT y)` written without parentheses — the reading of `x IS <comment> NOT y` by a grammar without
+    the two-token rule"""
+    k = t[0]
+    if k in ('a', 'k'):
+        return False
+    if k == 'b' and ops.names.get(t[1]) == 'IS' and t[3][0] == 'p' and ops.names.get(t[3][1]) == 'NOT':
+        return True
+    return any(has_is_of_not(ops, x) for x in t[1:] if isinstance(x, tuple))
+
+
+def kf_match(k, f):
+    sig = k.get('signature', {})
+    if f.get('class') not in sig.get('classes', []):
+        return False
+    if f.get('dialect') not in sig.get('dialects', []):
+        return False
+    sp = f.get('split_ops') or []
+    return sorted(sp) == sorted(sig.get('split_ops', [])) and bool(f.get('plain_ok')) and bool(f.get('is_of_not'))
+
+
+# ---- operators outside F ------------------------------------------------------------------------
+# the property's own operator list, by spelling, with the SQL stratum.  F (Gen/Prec_<d>) holds the operators whose production has a
+# shape the translator recognises (`expr OP expr`, `expr T1 T2 expr`); an operator the dialect ACCEPTS under another shape (a helper
+# non-terminal, an alternative spelling of a token such as `!=`) is outside F — outside every theorem and every generated tree.
+PROPERTY_OPS = {'OR': 0, 'AND': 1, '=': 3, '<>': 3, '!=': 3, '<': 3, '<=': 3, '>': 3, '>=': 3, 'IN': 3, 'NOT IN': 3, 'LIKE': 3,
+                'NOT LIKE': 3, 'IS': 3, 'IS NOT': 3, '+': 4, '-': 4, '*': 5, '/': 5, '%': 5}
+for _sp, _st in PROPERTY_OPS.items():
+    LEX.setdefault(_sp, _sp)
+    STRAT.setdefault(_sp, _st)
+
+
+def lost_ops(d, ops):
+    """spellings of the property's list that the dialect parses as a binary operator of that name although F has no operator
+    with this spelling; each gets a synthetic id (≥ 900000) in `ops` so that the generic tree tools work on it"""
+    from mindsdb_sql import parse_sql
+    out = []
+    for k, sp in enumerate(sorted(PROPERTY_OPS)):
+        if sp in ops.by_lex:
+            continue
+        try:
+            n = parse_sql('SELECT c0 %s c1 FROM t' % sp, d).targets[0]
+        except Exception:
+            continue
+        if type(n).__name__ != 'BinaryOperation' or ' '.join(str(n.op).upper().split()) != sp \
+                or [type(a).__name__ for a in n.args] != ['Identifier', 'Identifier']:
+            continue
+        sid = 900000 + k
+        ops.names[sid] = sp
+        ops.by_lex[sp] = sid
+        out.append(sid)
+    return out
+
+
+def contains_op(t, o):
+    return isinstance(t, tuple) and ((t[0] == 'b' and t[1] == o) or any(contains_op(x, o) for x in t[1:]))
+
+
+# ---- long chains ------------------------------------------------------------------------------
+def show_flat(t):
+    """`show` without recursion (trees of the long-chain stream are thousands of levels deep)"""
+    out, stack = [], [t]
+    while stack:
+        x = stack.pop()
+        if isinstance(x, str):
+            out.append(x)
+            continue
+        k = x[0]
+        if k == 'a':
+            out.append('a%d' % x[1])
+        elif k == 'k':
+            out.append('k%s' % (x[1],))
+        elif k == 'b':
+            stack += [')', x[3], ' ', x[2], '(b %d ' % x[1]]
+        elif k == 'p':
+            stack += [')', x[2], '(p %d ' % x[1]]
+        elif k == 'w':
+            stack += [')', x[3], ' ', x[2], ' ', x[1], '(w ']
+        else:
+            stack += [')', x[1], '(q ']
+    return ''.join(out)
+
+
+def left_depth(t):
+    n = 0
+    while t[0] in ('b', 'w', 'q'):
+        t = t[2] if t[0] == 'b' else t[1]
+        n += 1
+    return n
+
+
+def long_cases(ops, rng, sizes, big):
+    """(name, n, tree): chains with n operators on one spine — what only size can break (constructors / actions that re-balance,
+    flatten or fold operator trees from some depth on).  All are printed without any parentheses except `rnest`."""
+    nm = {v: k for k, v in ops.names.items()}
+    o = lambda name: ops.canon.get(nm[name], nm[name]) if name in nm else None
+    AND, OR, EQ, NE, PLUS, MINUS, STAR, DIV = (o(x) for x in ('AND', 'OR', 'EQUALS', 'NEQUALS', 'PLUS', 'MINUS', 'STAR', 'DIVIDE'))
+    NOT, UM = ops.pre_by_lex.get('NOT'), ops.pre_by_lex.get('-')
+    A = lambda i: ('a', i % 4)
+
+    def lchain(op, n, term=A):
+        t = term(0)
+        for i in range(1, n + 1):
+            t = ('b', op, t, term(i))
+        return t
+    conj = lambda i: ('b', AND, ('b', EQ, A(i), A(i + 1)), ('b', EQ, A(i + 2), A(i + 3)))
+
+    def flat(n):
+        """a random operator sequence with no parentheses at all, grouped here by the SQL strata (shunting yard, left-assoc);
+        two comparisons are always separated by AND / OR"""
+        pool = [(OR, 0), (AND, 1), (EQ, 3), (NE, 3), (PLUS, 4), (MINUS, 4), (STAR, 5), (DIV, 5)]
+        vals, opst, cmp_open = [A(0)], [], False
+        for i in range(1, n + 1):
+            while True:
+                op, st = pool[rng.randrange(len(pool))]
+                if not (st == 3 and cmp_open):
+                    break
+            cmp_open = (st == 3) or (cmp_open and st > 3)
+            while opst and opst[-1][1] >= st:
+                q, _ = opst.pop()
+                r = vals.pop()
+                l = vals.pop()
+                vals.append(('b', q, l, r))
+            opst.append((op, st))
+            vals.append(A(i))
+        while opst:
+            q, _ = opst.pop()
+            r = vals.pop()
+            l = vals.pop()
+            vals.append(('b', q, l, r))
+        return vals[0]
+    shapes = [
+        ('and', lambda n: lchain(AND, n)), ('or', lambda n: lchain(OR, n)),
+        ('dnf', lambda n: lchain(OR, n, conj)),                                        # c AND c OR c AND c OR …
+        ('cnf_tail', lambda n: ('b', OR, lchain(AND, n, lambda i: ('b', NE, A(i), A(i + 1))), A(1))),   # x AND … AND x OR y
+        ('or_dnf', lambda n: lchain(OR, n, lambda i: A(0) if i == 0 else conj(i))),   # y OR c AND c OR …
+        ('plus', lambda n: lchain(PLUS, n)), ('minus', lambda n: lchain(MINUS, n)), ('star', lambda n: lchain(STAR, n)),
+        ('div_minus', lambda n: lchain(MINUS, n, lambda i: ('b', DIV, A(i), A(i + 1)))),
+        ('flat', flat),
+        ('btw_and', lambda n: lchain(AND, n, lambda i: ('w', A(i), A(i + 1), A(i + 2)))),
+    ]
+    if NOT is not None:
+        shapes.append(('not_nest', lambda n: __import__('functools').reduce(lambda t, _: ('p', NOT, t), range(n), A(0))))
+    if True:
+        shapes.append(('rnest', lambda n: __import__('functools').reduce(
+            lambda t, i: ('b', MINUS, A(i), ('q', t)), range(n), A(0))))
+    lean = len(sizes) <= 2      # quick tier: every shape at the smallest size, the chains a re-balancing would aim at beyond
+    for j, (name, mk) in enumerate(shapes):
+        for n in sizes + [big]:
+            if lean and n == big and name not in ('dnf', 'flat'):
+                continue
+            if lean and n > sizes[0] and name in ('star', 'div_minus', 'rnest'):
+                continue
+            if not lean and n == big and name not in ('and', 'dnf', 'flat', 'minus'):
+                continue
+            yield '%s(%d)' % (name, n), n, mk(n)
+
+
 def run(chk):
     quick = chk.tier == 'quick'
     broken = bool(chk.broken())
     deep = not quick
     seen_ob = set()
+    sys.setrecursionlimit(max(sys.getrecursionlimit(), 60000))   # the long-chain stream: recursive readers over trees 3000 deep
 
     def oblige_once(name, kind, detail):
         if name not in seen_ob:
@@ -343,7 +562,7 @@ def run(chk):
             reps.setdefault(STRAT[ops.names[o]], o)
         rep_bins = sorted(reps.values())
         for size in (1, 2, 3) if not deep else (1, 2, 3, 4):
-            bins = ops.bins if size <= (2 if deep else 1) else rep_bins
+            bins = ops.all_bins if size == 1 else (ops.bins if size <= (2 if deep else 1) else rep_bins)
             for t in all_trees(ops, size, bins, ops.pres):
                 trees.append(('exh%d' % size, relabel(t, [0])))
         for i in range(60000 if deep else (8000 if broken else 1500)):
@@ -351,6 +570,19 @@ def run(chk):
         for src, t in trees:
             lines.append('%s %s' % (d, show(t)))
             metas.append((d, ops, src, t))
+    # long chains: sizes above every depth threshold a re-balancing / flattening change is likely to use, and one far above
+    n_short = len(metas)
+    longs = []
+    for d in DIALECTS:
+        ops = Ops(d)
+        rng = common.rng_for(chk.seed, 'C03/long/' + d)
+        # (a broken obligation — e.g. the constructor pin — widens the search to the thorough sizes)
+        wide = deep or broken
+        for name, n, t in long_cases(ops, rng, [130, 600] if not wide else [130, 260, 600, 1100], 1100 if not wide else 3000):
+            longs.append((d, ops, name, n, t))
+            if n <= 600 or deep:
+                lines.append('%s %s' % (d, show_flat(t)))
+                metas.append((d, ops, 'long:' + name, t))
     # the model side
     outs = None
     try:
@@ -366,35 +598,61 @@ def run(chk):
         ctx_ok[d] = [c for c in ctx_names if parse_real(d, o, 'c1', c)[0] == ('a', 1)
                      or parse_real(d, o, 'c1 = c2', c)[0] is not None]
         dist['%s/contexts' % d] = ','.join(ctx_ok[d])
-    for i, (d, ops, src, t) in enumerate(metas):
+
+    def split_fields(d, ops, text0, touched, cref, c, got, k):
+        """what the known-finding signature looks at, for a failure on a comment-separated spelling: the operators whose
+        comment-separated spelling ALONE (all others written with a blank) already changes the tree"""
+        plain, _ = parse_real(d, ops, text0, c)
+        culprits = []
+        for w in sorted(set(touched)):
+            only = re.sub(r'\b%s\b' % w, lambda m: w.replace(' ', COMMENT_SEPS[k % len(COMMENT_SEPS)]), text0)
+            g, _ = parse_real(d, ops, only, c)
+            if g != cref:
+                culprits.append(w)
+        return dict(split_ops=culprits, plain_ok=plain == cref, is_of_not=bool(got) and has_is_of_not(ops, got),
+                    plain_text=text0)
+    for i, (d, ops, src, t) in enumerate(metas[:n_short]):
         ref = add_parens(ops, t)
+        cref = canon_tree(ops, ref)
         if outs is not None:
             parts = [x.strip() for x in outs[i].split('|')]
-            model_res, model_ref = parts[1], parts[2]
+            model_res, model_ref = canon_str(ops, parts[1]), parts[2]
             if model_ref != show(ref):
                 oblige_once('mirror:addParens', 'harness', 'python mirror of addParens differs on %s' % show(t))
-            if 'frag=1' in parts[3] and model_res != model_ref:
+            if 'frag=1' in parts[3] and parts[1] != model_ref:
                 oblige_once('model:roundtrip-instance', 'theorem-instance', outs[i][:300])
-        text = to_sql(ops, ref, lambda n: 'c%d' % n)
+        text0 = text = to_sql(ops, ref, lambda n: 'c%d' % n)
+        touched, commented = [], False
         if i % 4 == 1:
             # multi-word operators are one operator whatever blanks separate the words
-            wsp = ['  ', '\t', '\n', ' \n  '][(i // 4) % 4]
-            text = re.sub(r'\b(IS|NOT) (NOT|IN|LIKE)\b', lambda m_: m_.group(1) + wsp + m_.group(2), text)
+            text, _ = respell(text0, WS_SEPS, i // 4)
+        elif i % 4 == 3:
+            # … and whatever comment: the words then arrive as separate terminals (other rules of the grammar, or none)
+            text, touched = respell(text0, COMMENT_SEPS, i // 4)
+            commented = bool(touched)
         cn = ctx_ok[d]
         ctx = cn[i % len(cn)] if src == 'rnd' or not deep else None
         for c in ([ctx] if ctx else cn):
             n_ctx += 1
             got, err = parse_real(d, ops, text, c)
             chk.count((d, c, text))
-            key = '%s/%s/%s' % (d, src, 'ok' if got == ref else ('reject' if got is None else 'regrouped'))
+            if commented and got is None and err and err.startswith('ParsingException') \
+                    and any(w not in ops.has_split for w in touched):
+                # the dialect has no rule for the separate words of this operator: a typed rejection is not a grouping
+                # (the same tree or a rejection are the two acceptable outcomes; a different tree is reported below)
+                dist['%s/split-reject' % d] = dist.get('%s/split-reject' % d, 0) + 1
+                continue
+            key = '%s/%s/%s' % (d, 'split' if commented else src, 'ok' if got == cref else ('reject' if got is None else 'regrouped'))
             dist[key] = dist.get(key, 0) + 1
-            if got != ref:
+            if got != cref:
                 f = dict(desc='parser groups %r differently from SQL (or rejects it)' % text, dialect=d, context=c,
-                         text=text, expected=show(ref), got=show(got) if got else None, error=err,
-                         **{'class': 'grouping'})
-                chk.classify(f, lambda k, f: False)
+                         text=text, expected=show(cref), got=show(got) if got else None, error=err,
+                         **{'class': 'grouping:split-spelling' if commented else 'grouping'})
+                if commented:
+                    f.update(split_fields(d, ops, text0, touched, cref, c, got, i))
+                chk.classify(f, kf_match)
                 chk.fail(f)
-                if outs is not None and model_res == show(ref):
+                if outs is not None and model_res == show(cref) and not f.get('kf'):
                     diverged += 1
                     first = first or dict(dialect=d, context=c, text=text, model=model_res, impl=show(got) if got else err)
             elif outs is not None and model_res != show(got):
@@ -416,8 +674,11 @@ def run(chk):
                     chk.count(('eval', d, sql))
                     if val != want:
                         f = dict(desc='value of the parsed tree differs from sqlite3 on %r' % sql, dialect=d, text=text,
-                                 sql=sql, sqlite=want, tree_value=val, tree=show(got), **{'class': 'eval'})
-                        chk.classify(f, lambda k, f: False)
+                                 sql=sql, sqlite=want, tree_value=val, tree=show(got), env=list(env),
+                                 **{'class': 'eval:split-spelling' if commented else 'eval'})
+                        if commented:
+                            f.update(split_fields(d, ops, text0, touched, cref, 'select', got, i))
+                        chk.classify(f, kf_match)
                         chk.fail(f)
         # the same expression with LITERAL atoms (constants take other grammar rules than identifiers: folding rules such as
         # `MINUS constant`, constructors that look at literal arguments): grouping with the distinct integers 100+n ...
@@ -427,11 +688,14 @@ def run(chk):
             c = cn[(i // 3) % len(cn)]
             got, err = parse_real(d, ops, tl, c)
             chk.count((d, c, tl))
-            dist['%s/lit/%s' % (d, 'ok' if got == ref else 'differs')] = dist.get('%s/lit/%s' % (d, 'ok' if got == ref else 'differs'), 0) + 1
-            if got is None or fold_minus(ops, got) != fold_minus(ops, ref):
+            dist['%s/lit/%s' % (d, 'ok' if got == cref else 'differs')] = dist.get('%s/lit/%s' % (d, 'ok' if got == cref else 'differs'), 0) + 1
+            if got is None and err and 'must contain an operation that evaluates to a boolean' in err:
+                # a deliberate, typed rejection of a bare constant as WHERE / HAVING condition (`WHERE - 100`): not a grouping matter
+                dist['%s/lit/constant-condition' % d] = dist.get('%s/lit/constant-condition' % d, 0) + 1
+            elif got is None or fold_minus(ops, got) != fold_minus(ops, cref):
                 f = dict(desc='parser groups %r (literal operands) differently from SQL (or rejects it)' % tl, dialect=d, context=c,
-                         text=tl, expected=show(ref), got=show(got) if got else None, error=err, **{'class': 'grouping:literal-atoms'})
-                chk.classify(f, lambda k, f: False)
+                         text=tl, expected=show(cref), got=show(got) if got else None, error=err, **{'class': 'grouping:literal-atoms'})
+                chk.classify(f, kf_match)
                 chk.fail(f)
             # ... and evaluation of the tree parsed from the text with the VALUES written in (non-negative values only: a
             # leading minus is a different token sequence)
@@ -451,18 +715,119 @@ def run(chk):
                     if got is None:
                         f = dict(desc='expression with literal operands %r is rejected or leaves the fragment' % sql_e, dialect=d,
                                  text=sql_e, error=err, **{'class': 'grouping:literal-values'})
-                        chk.classify(f, lambda k, f: False); chk.fail(f)
+                        chk.classify(f, kf_match); chk.fail(f)
                         continue
                     val = evaluate(ops, got, env)
                     if val != want:
                         f = dict(desc='value of the tree parsed from %r differs from sqlite3' % sql_e, dialect=d, text=sql_e,
                                  sql='SELECT ' + sql_e, sqlite=want, tree_value=val, tree=show(got), **{'class': 'eval:literal'})
-                        chk.classify(f, lambda k, f: False); chk.fail(f)
+                        chk.classify(f, kf_match); chk.fail(f)
+    # ---- long chains: grouping against the reference, the model, and (up to sqlite's own depth limit) evaluation
+    long_model = {}
+    if outs is not None:
+        for j, (d, ops, src, t) in enumerate(metas[n_short:]):
+            long_model[(d, src)] = outs[n_short + j]
+    for j, (d, ops, name, n, t) in enumerate(longs):
+        ref = add_parens(ops, t)
+        want_s = show_flat(canon_tree(ops, ref))
+        text = to_sql(ops, ref, lambda m: 'c%d' % m)
+        cn = ctx_ok[d]
+        c = cn[j % len(cn)]
+        n_ctx += 1
+        got, err = parse_real(d, ops, text, c)
+        chk.count((d, c, 'long', name))
+        got_s = show_flat(got) if got else None
+        key = '%s/long/%s' % (d, 'ok' if got_s == want_s else ('reject' if got is None else 'regrouped'))
+        dist[key] = dist.get(key, 0) + 1
+        mo = long_model.get((d, 'long:' + name))
+        if mo is not None:
+            parts = [x.strip() for x in mo.split('|')]
+            if 'frag=1' in parts[3] and parts[1] != parts[2]:
+                oblige_once('model:roundtrip-instance', 'theorem-instance', 'long chain %s/%s' % (d, name))
+            if canon_str(ops, parts[1]) != (got_s if got_s is not None else want_s):
+                diverged += 1
+                first = first or dict(dialect=d, context=c, text=text[:300], model=parts[1][:300], impl=(got_s or err)[:300])
+        if got_s != want_s:
+            f = dict(desc='parser groups the %d-operator chain %s (%r …) differently from SQL (or rejects it)' % (n, name, text[:80]),
+                     dialect=d, context=c, text=text, expected=want_s, got=got_s, error=err, chain=name,
+                     left_spine=dict(expected=left_depth(ref), got=left_depth(got) if got else None),
+                     **{'class': 'grouping:long-chain'})
+            chk.classify(f, kf_match)
+            chk.fail(f)
+            continue
+        if n <= 600 and evaluable(ops, ref):
+            for env in ENVS[:2] if not deep else ENVS[:4]:
+                sql = 'SELECT ' + to_sql(ops, ref, lambda m: lit(env[m]))
+                try:
+                    want = conn.execute(sql).fetchone()[0]
+                except sqlite3.Error:
+                    continue
+                if isinstance(want, float):
+                    continue
+                try:
+                    val = evaluate(ops, got, env)
+                except OverflowError:
+                    continue
+                chk.count(('eval-long', d, name, env))
+                if val != want:
+                    f = dict(desc='value of the tree parsed from the chain %s differs from sqlite3' % name, dialect=d, text=text,
+                             sql=sql, sqlite=want, tree_value=val, env=list(env), **{'class': 'eval:long-chain'})
+                    chk.classify(f, kf_match)
+                    chk.fail(f)
+    # ---- operators the dialect accepts outside F: small trees around them against the reference grouping (no model: the
+    # machine has no precedence data for them)
+    for d in DIALECTS:
+        ops = Ops(d)
+        lost = lost_ops(d, ops)
+        dist['%s/outside-F' % d] = ','.join(ops.names[o] for o in lost)
+        reps = {}
+        for o in ops.bins:
+            reps.setdefault(STRAT[ops.names[o]], o)
+        cn = ctx_ok[d]
+        for L in lost:
+            j = 0
+            for size in (1, 2):
+                for t in all_trees(ops, size, [L] + sorted(reps.values()), ops.pres):
+                    if not contains_op(t, L):
+                        continue
+                    t = relabel(t, [0])
+                    ref = add_parens(ops, t)
+                    text = to_sql(ops, ref, lambda n: 'c%d' % n)
+                    c = cn[j % len(cn)]
+                    j += 1
+                    got, err = parse_real(d, ops, text, c)
+                    chk.count((d, c, text))
+                    key = '%s/outside-F/%s' % (d, 'ok' if got == ref else ('reject' if got is None else 'regrouped'))
+                    dist[key] = dist.get(key, 0) + 1
+                    if got != ref:
+                        f = dict(desc='parser groups %r differently from SQL (or rejects it); operator %r is accepted by the dialect '
+                                      'but has no production of a shape the translator knows (outside F)' % (text, ops.names[L]),
+                                 dialect=d, context=c, text=text, expected=show(ref), got=show(got) if got else None, error=err,
+                                 **{'class': 'grouping:outside-F'})
+                        chk.classify(f, kf_match)
+                        chk.fail(f)
     if outs is not None:
         chk.corr_result('opm', n_ctx, diverged, first, dist)
-    for (d, ops, src, t) in metas[:2] + metas[-2:]:
+    # ---- known findings still reproduce?
+    for k in chk.kf:
+        if k.get('status') != 'open':
+            continue
+        w = k.get('witness', {})
+        try:
+            wops = Ops(w['dialect'])
+            got, err = parse_real(w['dialect'], wops, w['text'], w.get('context', 'select'))
+            plain, _ = parse_real(w['dialect'], wops, w['plain_text'], w.get('context', 'select'))
+            if got is not None and plain is not None and got != plain and has_is_of_not(wops, got):
+                k['_reproduced'] = True
+        except Exception:
+            pass
+    for (d, ops, src, t) in metas[:2] + metas[n_short - 2:n_short]:
         chk.samples.append(dict(dialect=d, src=src, tree=show(t), text=to_sql(ops, add_parens(ops, t), lambda n: 'c%d' % n)))
+    for (d, ops, name, n, t) in longs[:2]:
+        chk.samples.append(dict(dialect=d, src='long:' + name, operators=n,
+                                text=to_sql(ops, add_parens(ops, t), lambda m: 'c%d' % m)[:120] + ' …'))
     chk.samples.append(dict(theorem='C03_full P S F := ∀ e, inFragment F e = true → parse P (print P (addParens S e)) [] none = some (addParens S e) ∧ strip (addParens S e) = strip e'))
+    chk.samples.append(dict(theorem='C03_value: sqlOrder P S F → K.Faithful → ∀ e ∈ F, (parse P (print P (addParens S e)) [] none).map (read ∘ act K) = some (norm (addParens S e))'))
     return chk.finish(assumptions=ASSUME)
 
 
@@ -472,8 +837,19 @@ def replay(path):
     if not f:
         print(json.dumps(data, indent=1)[:3000])
         return 1
+    sys.setrecursionlimit(max(sys.getrecursionlimit(), 60000))
     ops = Ops(f['dialect'])
+    lost_ops(f['dialect'], ops)
     got, err = parse_real(f['dialect'], ops, f['text'], f.get('context', 'select'))
-    bad = (show(got) if got else None) != f['expected']
-    print('REPRODUCED' if bad else 'not reproduced', f['text'], 'expected', f['expected'], 'got', show(got) if got else err)
+    if 'expected' in f:
+        got_s = show_flat(got) if got else None
+        bad = got_s != f['expected']
+        print('REPRODUCED' if bad else 'not reproduced', repr(f['text'][:200]), 'expected', f['expected'][:300], 'got',
+              got_s[:300] if got_s else err)
+        return 1 if bad else 0
+    # an evaluation failure: the value of the parsed tree against sqlite3 on the recorded statement
+    want = sqlite3.connect(':memory:').execute(f['sql']).fetchone()[0]
+    val = evaluate(ops, got, tuple(f['env'])) if got is not None and 'env' in f else None
+    bad = val != want
+    print('REPRODUCED' if bad else 'not reproduced', repr(f['text'][:200]), 'sqlite', want, 'tree value', val)
     return 1 if bad else 0
